@@ -52,8 +52,8 @@ IDENT = re.compile(r"^[A-Za-z_][A-Za-z0-9_$]*$")
 
 def plan(tier):
     if tier == "quick":
-        return [("ns", 3000), ("convert", 16)]
-    return [("ns", 200000), ("convert", 600)]
+        return [("ns", 3000), ("clash", 3000), ("convert", 16), ("convert_off", 8)]
+    return [("ns", 200000), ("clash", 100000), ("convert", 600), ("convert_off", 300)]
 
 
 def gen_signals(rng, n):
@@ -84,6 +84,45 @@ def generate(family, rng, tier):
             if i not in order:
                 order.insert(rng.randrange(len(order) + 1), i)
         return {"family": family, "signals": sigs, "order": order}
+    if family == "clash":
+        # top-level signals around ONE base name: several holders of the bare name plus owners of its numbered forms, so the
+        # allocator has to skip more than one taken candidate (x, x, x_1, x_2, x_1_1, ...)
+        base = rng.choice(["x", "data", "wire", "q_1"])
+        pool = [base, base, base, base + "_1", base + "_2", base + "_3", base + "_1_1", base + "_2_1", base + "_1"]
+        n = rng.randint(3, 8)
+        sigs = []
+        for i in range(n):
+            nm = rng.choice(pool)
+            if rng.random() < 0.6:
+                sigs.append({"bt": [["s%d" % i, 0]], "override": nm, "related": None, "width": 1})
+            else:
+                sigs.append({"bt": [[nm, 0]], "override": None, "related": None, "width": 1})
+        order = list(range(n))
+        rng.shuffle(order)
+        for _ in range(rng.randint(0, n)):
+            order.insert(rng.randrange(len(order) + 1), rng.randrange(n))
+        return {"family": family, "signals": sigs, "order": order}
+    if family == "convert_off":
+        # same designs, different amounts of unrelated prior allocation (DUID offset) in each interpreter. Only designs whose
+        # equal names come from IDENTICAL back-traces (disambiguated by the namer itself in creation order) or from sliced
+        # expressions (proxy signals); equal names reached through different paths are the listed finding C02-F3.
+        designs = []
+        for _ in range(8):
+            sigs = []
+            leafs = ["a", "b", "c", "d", "e", "f", "g", "h"]
+            rng.shuffle(leafs)
+            for k in range(rng.randint(2, 5)):
+                depth = rng.randint(1, 3)
+                bt = [[rng.choice(["m", "sub", "core"]), rng.choice([0, 1])] for _ in range(depth - 1)] + [[leafs[k], 0]]
+                w = rng.choice([4, 8])
+                for _ in range(rng.choice([1, 1, 2, 3, 4]) if k else 1):
+                    sigs.append({"bt": bt, "override": None, "related": None, "width": w, "io": False, "sync": rng.random() < 0.4})
+            rest = sigs[1:]
+            rng.shuffle(rest)
+            sigs = sigs[:1] + rest
+            sigs[0]["io"] = True        # ports get name overrides (convert() does that): only the uniquely named input is one
+            designs.append({"signals": sigs, "duid_offset": 0, "slices": rng.randint(0, 6)})
+        return {"family": family, "designs": designs, "offsets": [0, 3, 250]}
     if family == "convert":
         designs = []
         for _ in range(8):
@@ -130,7 +169,7 @@ def check_names(names_by_sig, V, where):
 
 
 def run(scn):
-    if scn["family"] == "ns":
+    if scn["family"] in ("ns", "clash"):
         return run_ns(scn)
     return run_convert(scn)
 
@@ -197,6 +236,12 @@ for d in batch["designs"]:
             if s["io"]:
                 ios.add(sig)
         prev = sig
+    for k in range(d.get("slices", 0)):
+        a, b = objs[k %% len(objs)], objs[(k + 1) %% len(objs)]
+        o = Signal(2)
+        o.backtrace = [("slo%%d" %% k, 0)]
+        m.comb += o.eq((a + b)[1:3])
+        ios.add(o)
     try:
         r = verilog.convert(m, ios=ios, name="top")
         text = r.main_source
@@ -249,3 +294,10 @@ def run_convert(scn):
     dg = hashlib.sha256(repr([o["names"] for o in outs[0]]).encode()).hexdigest()[:16]
     return {"violations": viols, "digest": dg, "stats": {"checks": checks, "nontrivial": True, "faults": {"hash_seed": 3, "req_order": len(scn["designs"])},
                                                           "probes": {"designs": len(scn["designs"])}, "cycles": 0}}
+
+
+def known_match(scn, v):
+    # C02-F3: only the canonical scenario uses different prior allocation on designs with equal names reached through different paths
+    if scn.get("family") == "convert" and scn.get("offsets") not in (None, [0, 0, 0]) and v["cls"] == "not_reproducible":
+        return "C02-F3"
+    return None
